@@ -205,6 +205,17 @@ fn translate_select_pipeline(
         (None, limit.map(expr_of_i64))
     };
 
+    // `take n..` has an OFFSET but no upper bound; some dialects only accept
+    // OFFSET after LIMIT.
+    let limit = match limit {
+        None if offset.is_some() && fetch.is_none() => {
+            ctx.dialect.limit_for_offset_only().map(|no_limit| {
+                sql_ast::Expr::Value(sql_ast::Value::Number(no_limit.to_string(), false).into())
+            })
+        }
+        limit => limit,
+    };
+
     // If we have a FETCH we need to make sure that:
     // - we have an OFFSET (set to 0)
     // - we have an ORDER BY (see https://stackoverflow.com/a/44919325)
